@@ -52,8 +52,8 @@ def shards(tier, seed):
             mine = devs[j::ns]
             if tier == "quick":
                 k = (seed + idx) % len(mine)
-                mine = (mine[k:] + mine[:k])[:3]
-            out.append(dict(tier=tier, seed=seed * 1000 + idx, idx=idx, devs=mine, ncases=(40 if tier == "quick" else 400),
+                mine = (mine[k:] + mine[:k])[:4]
+            out.append(dict(tier=tier, seed=seed * 1000 + idx, idx=idx, devs=mine, ncases=(120 if tier == "quick" else 2000),
                             max_items=(48 if tier == "quick" else 100), long_stall=(400 if tier == "quick" else 700), core=[], core_ncases=0))
             idx += 1
     # real-core round trips ride on the three lightest shards (AXI writer: no long consumer stalls)
@@ -62,9 +62,10 @@ def shards(tier, seed):
     for j, sh in enumerate(light):
         mine = cores[j::len(light)]
         if tier == "quick":
-            mine = [mine[(seed + j) % len(mine)]]
+            k = (seed + j) % len(mine)
+            mine = (mine[k:] + mine[:k])[:2]
         sh["core"] = mine
-        sh["core_ncases"] = 8 if tier == "quick" else 60
+        sh["core_ncases"] = 12 if tier == "quick" else 150
     return out
 
 
